@@ -65,12 +65,26 @@ Theorem extend_no_crash : forall ds order, resolves ds -> incl order (struct_nam
 Proof. exact DeriveProofs.extend_no_crash. Qed.
 Print Assumptions extend_no_crash.
 
+(* struct_names is a Python set: its iteration order is unspecified.  The theorems above hold for every order.  The outcome itself is
+   independent of the order whenever no struct that records a factory type is itself recorded as a factory type (no abstract struct
+   inlines an abstract struct); otherwise it can differ (order_can_matter below). *)
+Theorem order_independent_when_flat : forall ds order order', flat ds -> resolves ds -> order_ok ds order -> order_ok ds order' ->
+  match extend_models ds order, extend_models ds order' with
+  | Ok (ps, M), Ok (ps', M') => ps = ps' /\ same_set M M'
+  | Reject, Reject => True
+  | _, _ => False
+  end.
+Proof. exact DeriveProofs.order_independent_flat. Qed.
+Print Assumptions order_independent_when_flat.
+
 (* non-vacuity: a schema with 2 factories, interleaved descendants, 2 discriminators (initializers in the other order) and an aligned
    struct used in an unaligned one satisfies every premise above, and the functions compute the expected values on it *)
 Example example_premises :
   fresh example_schema /\ no_empty_factory example_schema /\ order_ok example_schema example_order /\ resolves example_schema
-  /\ (forall s, In (DStruct s) example_schema -> s_factory_type s <> None -> carries s).
-Proof. exact (conj example_fresh (conj example_no_empty_factory (conj example_order_ok (conj example_resolves example_carries)))). Qed.
+  /\ flat example_schema /\ (forall s, In (DStruct s) example_schema -> s_factory_type s <> None -> carries s).
+Proof.
+  exact (conj example_fresh (conj example_no_empty_factory (conj example_order_ok (conj example_resolves (conj example_flat example_carries))))).
+Qed.
 
 Example example_values :
   match build_factory_map example_schema with
